@@ -69,13 +69,20 @@ Fixpoint matched_eqb (a b : list (N * bool)) : bool :=
   | _, _ => false
   end.
 
+(* the harness lists the non-zero TX counters only *)
+Fixpoint count_lookup (id : N) (l : list (N * N)) : N :=
+  match l with
+  | [] => 0
+  | (i, n) :: r => if i =? id then n else count_lookup id r
+  end.
+
 Definition ok (cs : case) : bool :=
   match cs with
   | Case w ks obs matched counts =>
     let c := tp_compile w in
     let '(b, s) := run_cmp c (tp_init c) ks obs in
     b && matched_eqb (tp_matched (st_trace s)) matched
-      && forallb (fun '(id, n) => tp_starter_count id (st_trace s) =? n) counts
+      && forallb (fun r => tp_starter_count (rr_id r) (st_trace s) =? count_lookup (rr_id r) counts) (w_rules w)
   end.
 
 Definition mismatches (l : list case) : list nat := mismatches_of ok l.
